@@ -22,7 +22,7 @@ LEVEL = 'exploration'
 RULE = ('case = cloud (gcp | azure, front_end.CLOUD patched per case) x generated configuration (1-6 pools: worker_type and '
         'worker_cores from the cloud\'s documented tables, preemptible, label in {"",x}, local-SSD vs external disk obeying the '
         'driver\'s pool-config form rules, boot disk, some pools / the job-private collection deliberately of the other cloud, '
-        'generated resource rates) x 1-12 requests (resources dict: cpu / memory / storage strings from the size grammar incl. '
+        'generated resource rates; configuration loaded alternately by InstanceCollectionConfigs.create and .refresh) x 1-12 requests, 3 in 4 aimed at one configured pool (its label, preemptibility, packable cpu values up to and beyond worker_cores) (resources dict: cpu / memory / storage strings from the size grammar incl. '
         'invalid and sub-mcpu values, values on and 1 byte around every pool\'s power-of-two memory and core boundaries, '
         'lowmem|standard|highmem, storage 0 / tiny / ~10Gi / around the cloud maximum / huge, machine_type valid / other cloud / '
         'bogus, pool_label, preemptible, forbidden combinations, jvm process). Each request = one validate_and_clean_jobs + one '
@@ -40,6 +40,7 @@ ASSUMPTIONS = [
     'azure is exercised by setting batch.front_end.front_end.CLOUD = "azure" for the case (the module constant is read from the '
     'environment at import); everything else is the unmodified front end',
     'transactions execute one at a time (minimysql); one request per _create_jobs call, update never committed',
+    'machine_type "" may be read either as an unknown machine type (400) or as no machine type; only a crash is reported for it',
 ]
 TRUSTED = ['vlib/minimysql (jobs insert + triggers), vlib/batchsim World start-up', 'documented tables and brute-force feasibility '
            'search in checks/c12.py', 'checks/c25.py reference recogniser/exact parser (independent of hailtop parse.py)']
@@ -360,7 +361,9 @@ def _crash_signature(e):
         fn = os.path.realpath(fr.filename)
         if fn.startswith(root) or fn.startswith(hostenv.REPO):
             inner = fr
-    where = f'{"/".join(inner.filename.split(os.sep)[-2:])}:{inner.name}' if inner is not None else 'harness'
+    if inner is None:
+        return None, None      # nothing of the repository on the stack: a harness problem, not a finding
+    where = f'{"/".join(inner.filename.split(os.sep)[-2:])}:{inner.name}'
     return f'crash:{type(c).__name__}:{where}', f'{type(c).__name__}: {str(c)[:300]} at {where}'
 
 
@@ -382,6 +385,8 @@ async def submit(w, case, bid, uid, idx, req, jar_prefix):
         if _is_not_supported(e):
             raise
         sig, msg = _crash_signature(e)
+        if sig is None:
+            raise
         return dict(kind='crash', signature=sig, message=msg)
     jid = idx  # update 1 of a fresh batch starts at job id 1
     rows = w.q('SELECT inst_coll, cores_mcpu, spec, state FROM jobs WHERE batch_id = %s AND job_id = %s', (bid, jid))
@@ -516,6 +521,8 @@ def judge(case, req, out):
         if bad:
             fail(f'inst-coll-mismatch:{what}', 'chosen collection matches cloud / preemptibility / label / named worker type',
                  f'placed in p{i} {p} whose {what} does not match the request')
+    if p['cloud'] != cloud:
+        return cls, False, fails     # the other cloud's tables do not apply; nothing further can be judged
     g = out['cores_mcpu']
     if r.get('cores_mcpu') != g:
         fail('row-spec-disagree', 'jobs row and stored spec agree', f'jobs.cores_mcpu {g} vs spec {r.get("cores_mcpu")}')
@@ -531,7 +538,7 @@ def judge(case, req, out):
     mb = r.get('memory_bytes')
     if not isinstance(mb, int) or mb < it['mem']:
         fail('under-memory', 'granted memory >= requested', f'granted {mb} bytes < requested {it["mem"]} (cores {g} on {p["wt"]})')
-    elif p['cloud'] == cloud and g > 0 and mb > core_share(cloud, p['wt'], g):
+    elif g > 0 and mb > core_share(cloud, p['wt'], g):
         fail('memory-exceeds-core-share', 'granted memory fits on one worker (<= the documented per-core share of the granted cores)',
              f'granted {mb} bytes > {g} mcpu x {doc["per_core_mib"][p["wt"]]} MiB/core')
     _storage_clauses(fail, r, it, max_gib, jp=False)
